@@ -301,7 +301,8 @@ def mp_value(rng, family, withdraw=False, nmax=20):
                            'label': label_stack(rng)})
         v = {'afi_safi': [2 if six else 1, 4], key: routes}
         if not withdraw:
-            v['nexthop'] = ipv6(rng, rng.choice(['doc', 'doc', 'small'])) if six else ipv4(rng, 'rand')
+            v['nexthop'] = ipv6(rng, rng.choice(['doc', 'doc', 'small', 'mapped', 'mapped'])) if six else \
+                (ipv4(rng, 'rand') if rng.random() < 0.8 else ipv6(rng, rng.choice(['doc', 'mapped'])))
     elif family in ('vpnv4', 'vpnv6'):
         six = family == 'vpnv6'
         routes = []
@@ -314,11 +315,11 @@ def mp_value(rng, family, withdraw=False, nmax=20):
     elif family == 'evpn':
         v = {'afi_safi': [25, 70], key: [evpn_route(rng) for _ in range(min(n, 6))]}
         if not withdraw:
-            v['nexthop'] = ipv4(rng, 'rand')
+            v['nexthop'] = ipv4(rng, 'rand') if rng.random() < 0.7 else ipv6(rng, rng.choice(['doc', 'mapped', 'rand']))
     elif family == 'flowspec':
         v = {'afi_safi': [1, 133], key: [flowspec_rule(rng) for _ in range(min(n, 5))]}
         if not withdraw:
-            v['nexthop'] = ''
+            v['nexthop'] = '' if rng.random() < 0.7 else ipv4(rng, 'rand')
     else:
         raise ValueError(family)
     return v
